@@ -239,16 +239,22 @@ def run(rep, tier, seed):
             rep.broken.append('correspondence C03/damaged: %r flags=%r model %r implementation %r' % (s, flags, r, got))
     # the same damaged expressions over multi-word names one of which starts at an inner word of another, an unknown word
     # being that other name's first word: "gnu" + "gpl v3" are two operands although "gnu gpl" starts the name "gnu gpl v2"
-    T2 = [('GNU-GPL-2.0', ['gnu gpl v2'], False), ('GPL-3.0', ['gpl v3'], False), ('mit', [], False), ('cpe', [], True)]
+    T2 = [('GNU-GPL-2.0', ['gnu gpl v2'], False), ('GPL-3.0', ['gpl v3'], False), ('mit', [], False), ('cpe', [], True),
+          # two names sharing a one-character word: 'gpl v' + '2' are two operands although 'v 2' is a name too
+          ('GPL-V', ['gpl v'], False), ('V-2', ['v 2'], False)]
     L2 = make_licensing(T2)
     encT2 = enc_table(T2)
-    words2 = {'k': ['mit', 'gpl v3', 'gnu gpl v2', 'GPL  V3'], 'e': ['cpe'], 'u': ['zz', 'gnu', 'gnu'], 'and': ['and'], 'or': ['OR'],
+    words2 = {'k': ['mit', 'gpl v3', 'gnu gpl v2', 'GPL  V3', 'gpl v', 'gpl v'], 'e': ['cpe'], 'u': ['zz', 'gnu', 'gnu', '2'], 'and': ['and'], 'or': ['OR'],
               'with': ['With'], '(': ['('], ')': [')']}
     multi = []
     for t, kind, flags in dam[:(6000 if tier == 'thorough' else 1500)] + [(tuple(x), 'none', (False, False, False)) for x in
-                                                                         (['u', 'k'], ['(', 'u', 'k', ')'], ['u', 'and', '(', 'u', 'k', 'or', 'u', ')'])]:
+                                                                         (['u', 'k'], ['(', 'u', 'k', ')'], ['u', 'and', '(', 'u', 'k', 'or', 'u', ')'], ['k', 'u'], ['(', 'k', 'u', ')'], ['k', 'u', 'and', 'k'])]:
         s2 = ' '.join(rng.choice(words2[x]) for x in t)
         multi.append((t, kind, (flags[0], flags[1], False), s2))
+    for toks, s2 in ((['k', 'u'], 'gpl v 2'), (['(', 'k', 'u', ')'], '( gpl v 2 )'), (['k', 'u', 'and', 'k'], 'GPL  v 2 and mit'),
+                     (['k', 'or', 'k', 'u'], 'mit or gpl v 2'), (['u', 'k'], 'gnu gpl v3'), (['k', 'and', '(', 'u', 'k', ')'], 'mit and (gnu gpl v3)')):
+        for st in (False, True):
+            multi.append((tuple(toks), 'none', (False, st, False), s2))
     res = run_model([(4, [encT2, int(f[0]), int(f[1]), 0, enc_str(s2)]) for t, _, f, s2 in multi])
     for (t, kind, flags, s2), r in zip(multi, res):
         ref = parsing.token_kinds_to_ref(t, False)
